@@ -11,14 +11,14 @@ import (
 )
 
 type Clause struct {
-	Assumed bool // unproved postcondition: used at call sites, not proved for the function (listed as an assumption)
-	Witness map[string]string // existential variable -> local variable name used as witness at returns
-	Raw   func(phis []Value, operand func(interface{}) string) string // engine-generated clause (auto invariants)
-	Label string
-	Props []string
-	E     Expr
-	Text  string
-	Src   string
+	Assumed bool                                                        // unproved postcondition: used at call sites, not proved for the function (listed as an assumption)
+	Witness map[string]string                                           // existential variable -> local variable name used as witness at returns
+	Raw     func(phis []Value, operand func(interface{}) string) string // engine-generated clause (auto invariants)
+	Label   string
+	Props   []string
+	E       Expr
+	Text    string
+	Src     string
 }
 
 type LoopSpec struct {
@@ -36,36 +36,36 @@ type ModItem struct {
 }
 
 type Contract struct {
-	Key       string
-	Pkg       string
-	Props     []string
-	Requires  []*Clause
-	Ensures   []*Clause
-	Modifies  []ModItem
-	HasMod    bool
-	Loops     map[int]*LoopSpec
-	Decreases *Clause
-	Pure      bool
-	Trusted   bool
-	NoPanic   bool // documentation only: nopanic obligations are always generated
-	Assumes   []*Clause // assume clauses placed at function entry (counted as assumptions)
-	Asserts   map[string][]*Clause
-	Src       string
-	Iface     bool
-	Ghost     bool   // ghost function (no body): contract only
-	Params    []QVar // for ghost functions / interface methods declared in spec
-	Results   []QVar
-	RecvName  string
-	Delegate  *TypeExpr // interface method contract = contract of this concrete type's method
+	Key        string
+	Pkg        string
+	Props      []string
+	Requires   []*Clause
+	Ensures    []*Clause
+	Modifies   []ModItem
+	HasMod     bool
+	Loops      map[int]*LoopSpec
+	Decreases  *Clause
+	Pure       bool
+	Trusted    bool
+	NoPanic    bool      // documentation only: nopanic obligations are always generated
+	Assumes    []*Clause // assume clauses placed at function entry (counted as assumptions)
+	Asserts    map[string][]*Clause
+	Src        string
+	Iface      bool
+	Ghost      bool   // ghost function (no body): contract only
+	Params     []QVar // for ghost functions / interface methods declared in spec
+	Results    []QVar
+	RecvName   string
+	Delegate   *TypeExpr                // interface method contract = contract of this concrete type's method
 	Callbacks  map[string]*CallbackSpec // function-typed parameter -> what the function promises about its calls of it
 	Invariants []*Clause                // closure invariants: hold before and after every call (assumed at entry, proved at return)
-	Partial   bool     // only the explicit clauses (post/inv/dec) are claimed: implicit obligations (no-panic, callee preconditions, frame) are assumed, i.e. the clauses hold for runs that return normally
-	Prune     bool     // check branch feasibility during symbolic execution and skip infeasible branches
-	AssumeDead map[string]string // "file.go:line" of the first statement of a branch -> label: assumed never taken (listed)
-	WaivePre   map[string]string // "callee.label" -> reason: that precondition is neither proved nor assumed at the call sites in this function (listed)
-	AssumePre  map[string]string // "callee.label" -> reason: that precondition of that callee is assumed at the call sites in this function (listed)
-	Reveal    []string // opaque spec predicates whose definition this function's proof may use
-	AllowPanic []string // explicit panic kinds that are part of the specified behaviour
+	Partial    bool                     // only the explicit clauses (post/inv/dec) are claimed: implicit obligations (no-panic, callee preconditions, frame) are assumed, i.e. the clauses hold for runs that return normally
+	Prune      bool                     // check branch feasibility during symbolic execution and skip infeasible branches
+	AssumeDead map[string]string        // "file.go:line" of the first statement of a branch -> label: assumed never taken (listed)
+	WaivePre   map[string]string        // "callee.label" -> reason: that precondition is neither proved nor assumed at the call sites in this function (listed)
+	AssumePre  map[string]string        // "callee.label" -> reason: that precondition of that callee is assumed at the call sites in this function (listed)
+	Reveal     []string                 // opaque spec predicates whose definition this function's proof may use
+	AllowPanic []string                 // explicit panic kinds that are part of the specified behaviour
 }
 
 // CallbackSpec: the higher-order function calls parameter f any number of times; every call passes
@@ -79,31 +79,31 @@ type CallbackSpec struct {
 
 type SpecFunc struct {
 	Abstract bool // uninterpreted function of its arguments only (no heap); constrained by axioms
-	Opaque bool // callers see an uninterpreted predicate over its heap footprint unless they reveal it
-	Name   string
-	Pkg    string
-	Params []QVar
-	Ret    *TypeExpr // nil for pred (bool)
-	Body   Expr
-	Text   string
+	Opaque   bool // callers see an uninterpreted predicate over its heap footprint unless they reveal it
+	Name     string
+	Pkg      string
+	Params   []QVar
+	Ret      *TypeExpr // nil for pred (bool)
+	Body     Expr
+	Text     string
 }
 
 type GhostVar struct {
-	Name string
-	Pkg  string
-	Key  *TypeExpr // nil: global ghost; else: per-object ghost (map from ref)
-	Key2 *TypeExpr // second key (two-dimensional ghost), or nil
-	T    *TypeExpr
+	Name    string
+	Pkg     string
+	Key     *TypeExpr // nil: global ghost; else: per-object ghost (map from ref)
+	Key2    *TypeExpr // second key (two-dimensional ghost), or nil
+	T       *TypeExpr
 	History bool // a history ghost: anybody may change it (no frame obligations; havocked by every call that is not pure)
 }
 
 type Lemma struct {
-	Name string
-	Pkg  string
-	E    Expr
-	Text string
-	Props []string
-	Src  string
+	Name   string
+	Pkg    string
+	E      Expr
+	Text   string
+	Props  []string
+	Src    string
 	Induct string // non-empty: proved by induction on this (integer, universally quantified) variable and then used as an axiom
 }
 
